@@ -1,6 +1,6 @@
 (* FsFacts.v — proofs about layer F (Fs.v): the write sequence of `iwe normalize`.
    Unbounded over directory trees, key orders, chunkings of every write and crash points. *)
-From IweV Require Import Str RelPath RelPathFacts Fs.
+From IweV Require Import Str Text RelPath RelPathFacts Fs.
 Local Open Scope string_scope.
 Local Open Scope list_scope.
 
@@ -21,26 +21,66 @@ Proof. induction a as [|x a IH]; cbn; [reflexivity | now rewrite IH]. Qed.
 Lemma note_path_inj k k' : note_path k = note_path k' -> k = k'.
 Proof. apply sapp_inv_tail. Qed.
 
-Lemma tmp_of_inj p q : tmp_of p = tmp_of q -> p = q.
-Proof. apply sapp_inv_tail. Qed.
+(* decimal rendering is injective: reading the digits back gives the number *)
+Definition digit_val (a : ascii) : nat := nat_of_ascii a - 48.
+Fixpoint undec_from (a : nat) (s : string) : nat :=
+  match s with
+  | EmptyString => a
+  | String c r => undec_from (a * 10 + digit_val c) r
+  end.
 
-Lemma tmp_neq p : tmp_of p <> p.
+Lemma digit_val_digit n : n < 10 -> digit_val (digit n) = n.
+Proof. intros H. unfold digit_val, digit. rewrite nat_ascii_embedding by lia. lia. Qed.
+
+Lemma undec_dec_aux f : forall n acc, n < f -> undec_from 0 (dec_aux f n acc) = undec_from n acc.
 Proof.
-  intros H. apply (f_equal String.length) in H. unfold tmp_of in H. rewrite slength_app in H.
-  cbn in H. lia.
+  induction f as [|f IH]; intros n acc H; [lia|].
+  cbn [dec_aux]. destruct (Nat.ltb n 10) eqn:E.
+  - apply Nat.ltb_lt in E. cbn [undec_from]. rewrite Nat.mod_small by exact E.
+    rewrite digit_val_digit by exact E. now rewrite Nat.mul_0_l, Nat.add_0_l.
+  - apply Nat.ltb_ge in E. rewrite IH.
+    + cbn [undec_from]. rewrite digit_val_digit by (apply Nat.mod_upper_bound; lia).
+      f_equal. pose proof (Nat.div_mod n 10). lia.
+    + pose proof (Nat.div_lt n 10). lia.
+Qed.
+
+Lemma dec_inj i j : dec i = dec j -> i = j.
+Proof.
+  intros H. apply (f_equal (undec_from 0)) in H. unfold dec in H.
+  rewrite !undec_dec_aux in H by lia. exact H.
+Qed.
+
+(* the candidate names of one note are pairwise different *)
+Lemma tmp_cand_inj p i j : tmp_cand p i = tmp_cand p j -> i = j.
+Proof.
+  assert (X : forall n, TMP <> "." +++ dec (S n) +++ TMP).
+  { intros n H. apply (f_equal String.length) in H. cbn [String.append] in H.
+    unfold TMP in H. cbn [String.length] in H. rewrite slength_app in H. cbn in H. lia. }
+  destruct i as [|i], j as [|j]; cbn [tmp_cand]; intros H; [reflexivity| | |].
+  - apply sapp_inv_head in H. now apply X in H.
+  - apply sapp_inv_head in H. symmetry in H. now apply X in H.
+  - apply sapp_inv_head, sapp_inv_head, sapp_inv_tail in H. now apply dec_inj.
+Qed.
+
+Lemma tmp_cand_shape p i : exists x, tmp_cand p i = x +++ TMP.
+Proof.
+  destruct i as [|i]; cbn [tmp_cand]; [now exists p|].
+  exists (p +++ "." +++ dec (S i)). now rewrite !sapp_assoc.
 Qed.
 
 (* a temporary name is never the path of a note: it cannot shadow one, and the loader
    ignores it (its extension is `tmp`) *)
-Lemma tmp_not_note p k : tmp_of p <> note_path k.
+Lemma tmp_not_note p i k : tmp_cand p i <> note_path k.
 Proof.
-  intros H. apply (f_equal srev) in H. unfold tmp_of, note_path, to_path, TMP, MD in H.
+  destruct (tmp_cand_shape p i) as (x & ->).
+  intros H. apply (f_equal srev) in H. unfold note_path, to_path, TMP, MD in H.
   rewrite !srev_append in H. cbn in H. discriminate.
 Qed.
 
-Lemma tmp_not_loaded p : has_md_ext (tmp_of p) = false.
+Lemma tmp_not_loaded p i : has_md_ext (tmp_cand p i) = false.
 Proof.
-  unfold has_md_ext, ends_with, tmp_of, TMP. rewrite srev_append. reflexivity.
+  destruct (tmp_cand_shape p i) as (x & ->).
+  unfold has_md_ext, ends_with, TMP. rewrite srev_append. reflexivity.
 Qed.
 
 (* ---------- the file system ------------------------------------------------------------------ *)
@@ -89,15 +129,16 @@ Qed.
 (* paths an operation can modify *)
 Definition op_targets (o : op) : list path :=
   match o with
-  | OpenTrunc p | Append p _ | Unlink p => [p]
+  | OpenTrunc p | OpenNew p | Append p _ | Unlink p => [p]
   | Rename p q => [p; q]
   | Sync _ | Close _ | Other _ => []
   end.
 
 Lemma apply_op_other o q s : ~ In q (op_targets o) -> lookup q (apply_op s o) = lookup q s.
 Proof.
-  destruct o as [p|p c|p|p|p r|p|w]; cbn; intros N; try reflexivity.
+  destruct o as [p|p|p c|p|p|p r|p|w]; cbn; intros N; try reflexivity.
   - apply lookup_set_other. tauto.
+  - destruct (lookup p s); [reflexivity | apply lookup_set_other; tauto].
   - destruct (lookup p s); [apply lookup_set_other; tauto | reflexivity].
   - destruct (lookup p s); [|reflexivity].
     rewrite lookup_set_other by tauto. apply lookup_remove_other. tauto.
@@ -185,6 +226,117 @@ Proof.
   - cbn. rewrite IH. tauto.
 Qed.
 
+(* ---------- the temporary name ------------------------------------------------------------------ *)
+
+Lemma first_free_range p s fuel : forall i, i <= first_free p s fuel i <= i + fuel.
+Proof.
+  induction fuel as [|f IH]; intros i; cbn [first_free]; [lia|].
+  destruct (lookup (tmp_cand p i) s); [|lia]. specialize (IH (S i)). lia.
+Qed.
+
+Lemma first_free_busy p s fuel : forall i j,
+  i <= j < first_free p s fuel i -> lookup (tmp_cand p j) s <> None.
+Proof.
+  induction fuel as [|f IH]; intros i j H; cbn [first_free] in H; [lia|].
+  destruct (lookup (tmp_cand p i) s) eqn:E; [|lia].
+  destruct (Nat.eq_dec j i) as [->|N]; [congruence|]. apply (IH (S i)). lia.
+Qed.
+
+Lemma first_free_free p s fuel : forall i,
+  first_free p s fuel i < i + fuel -> lookup (tmp_cand p (first_free p s fuel i)) s = None.
+Proof.
+  induction fuel as [|f IH]; intros i H; cbn [first_free] in *; [lia|].
+  destruct (lookup (tmp_cand p i) s) eqn:E; [|exact E]. apply IH. lia.
+Qed.
+
+Lemma NoDup_map_inj {A B} (f : A -> B) l :
+  (forall x y, f x = f y -> x = y) -> NoDup l -> NoDup (map f l).
+Proof.
+  intros Hf H. induction H as [|x l Hx _ IH]; cbn [map]; constructor; [|exact IH].
+  intros Hin. apply in_map_iff in Hin as (y & E & Hy). apply Hf in E. subst. contradiction.
+Qed.
+
+(* n different candidate names that all exist: the file system has at least n files *)
+Lemma busy_bound p (s : fs) n :
+  (forall j, j < n -> lookup (tmp_cand p j) s <> None) -> n <= length s.
+Proof.
+  intros H.
+  assert (L : length (map (tmp_cand p) (seq 0 n)) <= length (map fst s)).
+  { apply NoDup_incl_length.
+    - apply NoDup_map_inj; [intros i j; apply tmp_cand_inj | apply seq_NoDup].
+    - intros q Hq. apply in_map_iff in Hq as (j & <- & Hj). apply in_seq in Hj.
+      destruct (lookup (tmp_cand p j) s) as [b|] eqn:E; [|exfalso; apply (H j); [lia | exact E]].
+      apply lookup_in in E. apply in_map_iff. exists (tmp_cand p j, b). auto. }
+  rewrite !map_length, seq_length in L. exact L.
+Qed.
+
+(* the fuel of [tmp_index] suffices: the name chosen does not exist, and every candidate
+   before it does (so it is the FIRST free candidate, whatever the number of files) *)
+Lemma tmp_index_spec s p :
+  lookup (tmp_of s p) s = None /\ forall j, j < tmp_index s p -> lookup (tmp_cand p j) s <> None.
+Proof.
+  unfold tmp_of, tmp_index. split.
+  - pose proof (first_free_range p s (length s) 0) as R.
+    destruct (Nat.eq_dec (first_free p s (length s) 0) (length s)) as [E|N].
+    + destruct (lookup (tmp_cand p (first_free p s (length s) 0)) s) as [b|] eqn:L; [|reflexivity].
+      exfalso. assert (X : S (length s) <= length s); [|lia].
+      apply (busy_bound p). intros j Hj. destruct (Nat.eq_dec j (length s)) as [->|Nj].
+      * rewrite E in L. congruence.
+      * apply (first_free_busy p s (length s) 0). lia.
+    + apply first_free_free. lia.
+  - intros j Hj. apply (first_free_busy p s (length s) 0). lia.
+Qed.
+
+Lemma tmp_free s p : lookup (tmp_of s p) s = None.
+Proof. apply tmp_index_spec. Qed.
+
+(* the name depends only on which candidates exist *)
+Lemma tmp_of_ext s s' p :
+  (forall i, lookup (tmp_cand p i) s = lookup (tmp_cand p i) s') -> tmp_of s p = tmp_of s' p.
+Proof.
+  intros H. destruct (tmp_index_spec s p) as [F B], (tmp_index_spec s' p) as [F' B'].
+  unfold tmp_of in *. f_equal.
+  destruct (lt_eq_lt_dec (tmp_index s p) (tmp_index s' p)) as [[L|E]|L]; [|exact E|]; exfalso.
+  - apply (B' _ L). now rewrite <- H.
+  - apply (B _ L). now rewrite H.
+Qed.
+
+(* the opens that answer EEXIST *)
+Definition probes (s : fs) (p : path) : list op :=
+  map (fun i => OpenNew (tmp_cand p i)) (seq 0 (tmp_index s p)).
+
+Lemma create_ops_split s p : create_ops s p = probes s p ++ [OpenNew (tmp_of s p)].
+Proof. unfold create_ops, probes, tmp_of. rewrite seq_S, map_app. reflexivity. Qed.
+
+Lemma probes_noop s p : forall o, In o (probes s p) -> apply_op s o = s.
+Proof.
+  intros o H. apply in_map_iff in H as (j & <- & Hj). apply in_seq in Hj. cbn [apply_op].
+  destruct (lookup (tmp_cand p j) s) eqn:E; [reflexivity|]. exfalso.
+  destruct (tmp_index_spec s p) as [_ B]. apply (B j); [lia | exact E].
+Qed.
+
+Lemma run_noops ops s : (forall o, In o ops -> apply_op s o = s) -> run_ops ops s = s.
+Proof.
+  induction ops as [|o ops IH]; intros H; [reflexivity|].
+  rewrite run_ops_cons, H by now left. apply IH. intros o' Ho'. apply H. now right.
+Qed.
+
+(* what a group does before its rename: nothing outside its temporary file *)
+Definition group_pre (s : fs) (p : path) (cs : list bytes) : list op :=
+  create_ops s p ++ map (Append (tmp_of s p)) cs ++ [Close (tmp_of s p)].
+
+Lemma group_pre_other s p cs m q :
+  q <> tmp_of s p -> lookup q (run_ops (firstn m (group_pre s p cs)) s) = lookup q s.
+Proof.
+  intros N. unfold group_pre. rewrite create_ops_split, <- app_assoc, firstn_app, run_ops_app.
+  rewrite (run_noops (firstn m (probes s p))).
+  - apply run_ops_other. intros o Ho Hq. apply in_firstn in Ho. apply N.
+    cbn [app] in Ho. destruct Ho as [<-|Ho]; [cbn in Hq; intuition congruence|].
+    apply in_app_or in Ho as [Ho|[<-|[]]]; [|cbn in Hq; tauto].
+    apply in_map_iff in Ho as (c & <- & _). cbn in Hq. intuition congruence.
+  - intros o Ho. apply in_firstn in Ho. now apply (probes_noop s p).
+Qed.
+
 (* ---------- the write sequence ------------------------------------------------------------------ *)
 
 Section Normalize.
@@ -196,27 +348,40 @@ Section Normalize.
   Notation file_ops := (file_ops chunks).
   Notation normalize_ops := (normalize_ops chunks).
 
-  (* --- one note, complete -------------------------------------------------------------------- *)
+  (* --- one note, complete: the note holds the exported bytes, every other path — the
+         temporary name included, which did not exist — is as it was ------------------------------ *)
 
-  Definition tmp_hit (v : variant) (k : string) (q : path) : bool :=
-    match v with Repaired => String.eqb (tmp_of (note_path k)) q | AsFound => false end.
+  Lemma file_ops_regroup s k :
+    file_ops Repaired s k =
+      group_pre s (note_path k) (chunks k) ++ [Rename (tmp_of s (note_path k)) (note_path k)].
+  Proof. cbn [file_ops Fs.file_ops]. unfold group_pre. now rewrite <- !app_assoc. Qed.
 
   Lemma group_effect v k s q :
-    lookup q (run_ops (file_ops v k) s) =
-      if String.eqb (note_path k) q then Some (export k)
-      else if tmp_hit v k q then None else lookup q s.
+    lookup q (run_ops (file_ops v s k) s) =
+      if String.eqb (note_path k) q then Some (export k) else lookup q s.
   Proof.
-    destruct v; cbn [file_ops Fs.file_ops tmp_hit].
+    destruct v; cbn [file_ops Fs.file_ops].
     - destruct (String.eqb_spec (note_path k) q) as [<-|N].
       + now rewrite write_ops_result, chunks_ok.
       + apply write_ops_other. congruence.
-    - rewrite run_ops_app. cbn [run_ops fold_left apply_op].
-      fold (run_ops (write_ops (tmp_of (note_path k)) (chunks k)) s).
-      rewrite write_ops_result, chunks_ok.
-      destruct (String.eqb_spec (note_path k) q) as [<-|N]; [apply lookup_set_same|].
+    - set (p := note_path k). set (t := tmp_of s p).
+      assert (Ft : lookup t s = None) by apply tmp_free.
+      rewrite create_ops_split. fold t. rewrite <- app_assoc, run_ops_app.
+      rewrite (run_noops (probes s p)) by apply probes_noop.
+      cbn [app]. rewrite run_ops_cons. cbn [apply_op]. rewrite Ft, run_ops_app.
+      set (s2 := run_ops (map (Append t) (chunks k)) (set t "" s)).
+      assert (T2 : lookup t s2 = Some (export k)).
+      { unfold s2. rewrite (run_appends t _ _ "") by apply lookup_set_same.
+        cbn [String.append]. now rewrite chunks_ok. }
+      assert (O2 : forall q', q' <> t -> lookup q' s2 = lookup q' s).
+      { intros q' N. unfold s2. rewrite run_ops_other.
+        - apply lookup_set_other. congruence.
+        - intros o Ho Hq. apply in_map_iff in Ho as (c & <- & _). cbn in Hq. intuition congruence. }
+      cbn [run_ops fold_left apply_op]. rewrite T2.
+      destruct (String.eqb_spec p q) as [<-|N]; [apply lookup_set_same|].
       rewrite lookup_set_other by exact N.
-      destruct (String.eqb_spec (tmp_of (note_path k)) q) as [<-|N2]; [apply lookup_remove_same|].
-      rewrite lookup_remove_other by exact N2. apply write_ops_other. congruence.
+      destruct (String.eqb_spec t q) as [<-|N2]; [now rewrite lookup_remove_same|].
+      rewrite lookup_remove_other by exact N2. apply O2. congruence.
   Qed.
 
   (* --- the complete run: exactly the note paths are rewritten, with the exported bytes --------- *)
@@ -227,33 +392,24 @@ Section Normalize.
     | None => lookup q s0
     end.
 
-  Theorem full_run v order : forall s0,
-    (v = Repaired -> forall k, In k order -> lookup (tmp_of (note_path k)) s0 = None) ->
-    forall q, lookup q (run_ops (normalize_ops v order) s0) = expected order s0 q.
+  Theorem full_run v order : forall s0 q,
+    lookup q (run_ops (normalize_ops v order s0) s0) = expected order s0 q.
   Proof.
-    induction order as [|k order IH]; intros s0 Ht q; [reflexivity|].
-    cbn [normalize_ops Fs.normalize_ops flat_map]. rewrite run_ops_app.
-    fold (normalize_ops v order). rewrite IH.
-    - unfold expected. cbn [find].
-      destruct (String.eqb_spec (note_path k) q) as [E|N].
-      + destruct (find _ order) as [k'|] eqn:F.
-        * apply find_some in F as [_ F]. apply String.eqb_eq in F.
-          rewrite <- E in F. apply note_path_inj in F. now subst.
-        * rewrite group_effect. now rewrite <- E, String.eqb_refl.
-      + destruct (find _ order) as [k'|]; [reflexivity|].
-        rewrite group_effect. destruct (String.eqb_spec (note_path k) q); [contradiction|].
-        destruct v; cbn [tmp_hit]; [reflexivity|].
-        destruct (String.eqb_spec (tmp_of (note_path k)) q) as [<-|]; [|reflexivity].
-        symmetry. apply Ht; [reflexivity | now left].
-    - intros -> k' Hk'. rewrite group_effect.
-      destruct (String.eqb_spec (note_path k) (tmp_of (note_path k'))) as [E|_].
-      + symmetry in E. now apply tmp_not_note in E.
-      + cbn [tmp_hit]. destruct (String.eqb _ _); [reflexivity|].
-        apply Ht; [reflexivity | now right].
+    induction order as [|k order IH]; intros s0 q; [reflexivity|].
+    cbn [normalize_ops Fs.normalize_ops]. rewrite run_ops_app, IH.
+    unfold expected. cbn [find].
+    destruct (String.eqb_spec (note_path k) q) as [E|N].
+    - destruct (find _ order) as [k'|] eqn:F.
+      + apply find_some in F as [_ F]. apply String.eqb_eq in F.
+        rewrite <- E in F. apply note_path_inj in F. now subst.
+      + rewrite group_effect. now rewrite <- E, String.eqb_refl.
+    - destruct (find _ order) as [k'|]; [reflexivity|].
+      rewrite group_effect. destruct (String.eqb_spec (note_path k) q); [contradiction | reflexivity].
   Qed.
 
-  (* --- any prefix of the repaired sequence (crash), followed by the removal of temporary
-         files (error path): every path other than a temporary file is old or new ------------------ *)
+  (* --- any prefix of the repaired sequence (crash), followed by the removal of the temporary
+         file (error path): every path is old or new, except at most one temporary file whose
+         name did not exist when the run started ---------------------------------------------------- *)
 
   Section Atomic.
     Variable order : list string.
@@ -263,6 +419,14 @@ Section Normalize.
     Definition old_or_new (s s' : fs) (q : path) : Prop :=
       lookup q s' = lookup q s \/
       exists k, In k order /\ q = note_path k /\ lookup q s' = Some (export k).
+
+    (* what an interrupted run that started from [s0] leaves: every path whatsoever is old or
+       new; or the run stopped while writing the note of one key k, and then the same holds for
+       every path but one: the temporary file of that note, [tmp_of s0 (note_path k)] — the first
+       of its candidate names that did not exist in [s0] (lemma tmp_free) *)
+    Definition interrupted (s0 s : fs) : Prop :=
+      (forall q, old_or_new s0 s q) \/
+      (exists k, In k order /\ forall q, q <> tmp_of s0 (note_path k) -> old_or_new s0 s q).
 
     Lemma oon_refl s q : old_or_new s s q.
     Proof. now left. Qed.
@@ -274,54 +438,84 @@ Section Normalize.
       right. exists k. repeat split; auto. congruence.
     Qed.
 
-    Lemma group_prefix k m s q :
-      In k order -> q <> tmp_of (note_path k) ->
-      old_or_new s (run_ops (firstn m (file_ops Repaired k)) s) q.
+    (* between two notes the candidate names are as they were at the start: the name chosen for
+       the next note is the one the initial directory determines *)
+    Lemma tmp_of_stable s0 s k :
+      (forall q, old_or_new s0 s q) -> tmp_of s (note_path k) = tmp_of s0 (note_path k).
     Proof.
-      intros Hk N. cbn [file_ops Fs.file_ops].
-      destruct (firstn_snoc_cases (write_ops (tmp_of (note_path k)) (chunks k))
-                  (Rename (tmp_of (note_path k)) (note_path k)) m) as [E|E]; rewrite E.
-      - left. apply run_ops_other. intros o Ho Hq. apply in_firstn in Ho.
-        apply N. eapply write_ops_targets; eauto.
-      - unfold old_or_new. pose proof (group_effect Repaired k s q) as G.
-        cbn [file_ops Fs.file_ops tmp_hit] in G. rewrite G.
-        destruct (String.eqb_spec (note_path k) q) as [<-|_].
-        + right. exists k. auto.
-        + left. destruct (String.eqb_spec (tmp_of (note_path k)) q); [congruence | reflexivity].
+      intros H. apply tmp_of_ext. intros i.
+      destruct (H (tmp_cand (note_path k) i)) as [E|(k' & _ & E & _)]; [exact E|].
+      now apply tmp_not_note in E.
     Qed.
 
-    Lemma groups_oon l : forall s q,
-      incl l order -> (forall k, In k l -> q <> tmp_of (note_path k)) ->
-      old_or_new s (run_ops (flat_map (file_ops Repaired) l) s) q.
+    Lemma group_oon k s q : In k order -> old_or_new s (run_ops (file_ops Repaired s k) s) q.
     Proof.
-      induction l as [|k l IH]; intros s q Hi N; [apply oon_refl|].
-      cbn [flat_map]. rewrite run_ops_app.
-      apply oon_trans with (s' := run_ops (file_ops Repaired k) s).
-      - rewrite <- (firstn_all (file_ops Repaired k)).
-        apply group_prefix; [apply Hi; now left | apply N; now left].
-      - apply IH; [intros x Hx; apply Hi; now right | intros x Hx; apply N; now right].
+      intros Hk. unfold old_or_new. rewrite group_effect.
+      destruct (String.eqb_spec (note_path k) q) as [<-|_]; [right; exists k; auto | now left].
     Qed.
 
-    Definition is_cleanup (o : op) : Prop := exists k, In k order /\ o = Unlink (tmp_of (note_path k)).
-
-    Theorem atomic_repaired n cleanup s0 q :
-      Forall is_cleanup cleanup ->
-      (forall k, In k order -> q <> tmp_of (note_path k)) ->
-      old_or_new s0 (run_ops (firstn n (normalize_ops Repaired order) ++ cleanup) s0) q.
+    Lemma group_prefix k m s0 s :
+      In k order -> (forall q, old_or_new s0 s q) ->
+      interrupted s0 (run_ops (firstn m (file_ops Repaired s k)) s).
     Proof.
-      intros Hc N. rewrite run_ops_app.
-      apply oon_trans with (s' := run_ops (firstn n (normalize_ops Repaired order)) s0).
-      - unfold Fs.normalize_ops.
-        destruct (firstn_flat_map (file_ops Repaired) order n) as (l1 & l2 & m & E & E2).
-        rewrite E2, run_ops_app.
-        apply oon_trans with (s' := run_ops (flat_map (file_ops Repaired) l1) s0).
-        + apply groups_oon; [rewrite E; intros x Hx; apply in_or_app; now left|].
-          intros k Hk. apply N. rewrite E. apply in_or_app. now left.
-        + destruct l2 as [|k l2]; [apply oon_refl|].
-          apply group_prefix; [|apply N]; rewrite E; apply in_or_app; right; now left.
-      - left. apply run_ops_other.
-        intros o Ho Hq. rewrite Forall_forall in Hc. destruct (Hc o Ho) as (k & Hk & ->).
-        cbn in Hq. destruct Hq as [<-|[]]. now apply (N k).
+      intros Hk H. rewrite file_ops_regroup.
+      destruct (firstn_snoc_cases (group_pre s (note_path k) (chunks k))
+                  (Rename (tmp_of s (note_path k)) (note_path k)) m) as [E|E]; rewrite E.
+      - right. exists k. split; [exact Hk|]. intros q N.
+        rewrite <- (tmp_of_stable s0 s k H) in N.
+        apply oon_trans with (s' := s); [apply H|]. left. now apply group_pre_other.
+      - left. intros q. apply oon_trans with (s' := s); [apply H|].
+        rewrite <- file_ops_regroup. now apply group_oon.
+    Qed.
+
+    Lemma prefix_interrupted s0 l : forall s n,
+      incl l order -> (forall q, old_or_new s0 s q) ->
+      interrupted s0 (run_ops (firstn n (normalize_ops Repaired l s)) s).
+    Proof.
+      induction l as [|k l IH]; intros s n Hi H; cbn [normalize_ops Fs.normalize_ops].
+      - rewrite firstn_nil. left. exact H.
+      - rewrite firstn_app, run_ops_app.
+        destruct (le_lt_dec (length (file_ops Repaired s k)) n) as [L|L].
+        + rewrite (firstn_all2 (file_ops Repaired s k)) by exact L.
+          apply IH; [intros x Hx; apply Hi; now right|].
+          intros q. apply oon_trans with (s' := s); [apply H|]. apply group_oon, Hi. now left.
+        + replace (n - length (file_ops Repaired s k)) with 0 by lia. rewrite firstn_O.
+          change (run_ops [] ?x) with x. apply group_prefix; [apply Hi; now left | exact H].
+    Qed.
+
+    (* the error path of `write_file` (fs.rs:19-23): the temporary file this call created is
+       removed — the first free candidate of some note *)
+    Definition is_cleanup (s0 : fs) (o : op) : Prop :=
+      exists k, In k order /\ o = Unlink (tmp_of s0 (note_path k)).
+
+    Lemma cleanup_interrupted s0 s o :
+      is_cleanup s0 o -> interrupted s0 s -> interrupted s0 (apply_op s o).
+    Proof.
+      intros (k' & Hk' & ->) I. cbn [apply_op]. set (u := tmp_of s0 (note_path k')).
+      assert (Fu : forall q, q = u -> old_or_new s0 (remove u s) q).
+      { intros q ->. left. rewrite lookup_remove_same. symmetry. apply tmp_free. }
+      assert (U : forall q, old_or_new s0 s q -> old_or_new s0 (remove u s) q).
+      { intros q Hq. destruct (string_dec q u) as [E|N]; [now apply Fu|].
+        destruct Hq as [E|(k & A & B & C)]; [left | right; exists k; repeat split; auto];
+          rewrite lookup_remove_other by congruence; assumption. }
+      destruct I as [A|(k & Hk & B)].
+      - left. intros q. apply U, A.
+      - destruct (string_dec u (tmp_of s0 (note_path k))) as [E|N].
+        + left. intros q. destruct (string_dec q u) as [Eq|Nq]; [now apply Fu|].
+          apply U, B. congruence.
+        + right. exists k. split; [exact Hk|]. intros q Nq. apply U, B, Nq.
+    Qed.
+
+    Theorem atomic_repaired n cleanup s0 :
+      Forall (is_cleanup s0) cleanup ->
+      interrupted s0 (run_ops (firstn n (normalize_ops Repaired order s0) ++ cleanup) s0).
+    Proof.
+      intros Hc. rewrite run_ops_app.
+      assert (I : interrupted s0 (run_ops (firstn n (normalize_ops Repaired order s0)) s0))
+        by (apply prefix_interrupted; [apply incl_refl | intros q; apply oon_refl]).
+      revert I. generalize (run_ops (firstn n (normalize_ops Repaired order s0)) s0) as s.
+      induction Hc as [|o cl Ho _ IH]; intros s I; [exact I|].
+      rewrite run_ops_cons. apply IH. now apply cleanup_interrupted.
     Qed.
   End Atomic.
 End Normalize.
@@ -416,15 +610,6 @@ Proof.
   unfold written_keys. rewrite in_dedup, in_map_iff. split; intros (l & A & B); exists l; auto.
 Qed.
 
-Lemma no_tmp_clash t k :
-  tmp_clash t = false -> In k (written_keys t) -> lookup (tmp_of (note_path k)) (files_of t) = None.
-Proof.
-  intros Hc Hk. apply lookup_none_notin. intros Hin.
-  assert (tmp_clash t = true); [|congruence].
-  unfold tmp_clash. apply existsb_exists. exists k. split; [exact Hk|].
-  apply existsb_exists. exists (tmp_of (note_path k)). split; [exact Hin | apply String.eqb_refl].
-Qed.
-
 (* ---------- the property, on directory trees ------------------------------------------------------ *)
 
 Section Tree.
@@ -455,17 +640,16 @@ Section Tree.
 
   (* complete run, either variant *)
   Theorem paths_and_content v :
-    names_ok t = true -> irregular t = false -> (v = Repaired -> tmp_clash t = false) ->
-    let s := run_ops (normalize_ops chunks v order) s0 in
+    names_ok t = true -> irregular t = false ->
+    let s := run_ops (normalize_ops chunks v order s0) s0 in
     (forall l, In l (load t) ->
        note_path (l_key l) = l_path l /\ In (l_path l, l_content l) s0 /\
        lookup (l_path l) s = Some (export (l_key l))) /\
     (forall q, (forall l, In l (load t) -> l_path l <> q) -> lookup q s = lookup q s0).
   Proof.
-    intros Hn Hi Hc s.
-    assert (FR : forall q, lookup q s = expected export order s0 q).
-    { apply (full_run export chunks chunks_ok). intros -> k Hk.
-      apply no_tmp_clash; [now apply Hc | now apply order_ok]. }
+    intros Hn Hi s.
+    assert (FR : forall q, lookup q s = expected export order s0 q)
+      by (intros q; apply (full_run export chunks chunks_ok)).
     split.
     - intros l Hl. destruct (load_regular t l Hn Hi Hl) as [_ Hp].
       split; [exact Hp|]. split; [now apply load_in_files|].
@@ -478,32 +662,30 @@ Section Tree.
   Qed.
 
   (* crash after any number of operations of the repaired sequence, or error stop with removal
-     of temporary files *)
+     of the temporary file; any directory tree *)
   Theorem atomic_tree n cleanup :
-    tmp_clash t = false -> Forall (is_cleanup order) cleanup ->
-    let s := run_ops (firstn n (normalize_ops chunks Repaired order) ++ cleanup) s0 in
+    Forall (is_cleanup order s0) cleanup ->
+    let s := run_ops (firstn n (normalize_ops chunks Repaired order s0) ++ cleanup) s0 in
     (* every file that existed holds its old bytes or, if it is the target of a note, the
        complete new bytes *)
     (forall q, In q (map fst s0) -> old_or_new export order s0 s q) /\
     (* every note path likewise *)
     (forall k, In k order -> old_or_new export order s0 s (note_path k)) /\
-    (* whatever else appears is a temporary sibling of a note *)
-    (forall q, lookup q s0 = None -> lookup q s <> None ->
-       exists k, In k order /\ (q = tmp_of (note_path k) \/ q = note_path k)).
+    (* and so does every other path (nothing else appears or disappears), except at most one:
+       the temporary file of the note that was being written, whose name did not exist *)
+    ((forall q, old_or_new export order s0 s q) \/
+     exists k, In k order /\ lookup (tmp_of s0 (note_path k)) s0 = None /\
+               forall q, q <> tmp_of s0 (note_path k) -> old_or_new export order s0 s q).
   Proof.
-    intros Hc Hcl s. repeat split.
-    - intros q Hq. apply (atomic_repaired export chunks chunks_ok); [exact Hcl|].
-      intros k Hk ->. apply order_ok in Hk. apply (no_tmp_clash t k Hc) in Hk.
-      now apply lookup_none_notin in Hk.
-    - intros k Hk. apply (atomic_repaired export chunks chunks_ok); [exact Hcl|].
-      intros k' _ E. symmetry in E. now apply tmp_not_note in E.
-    - intros q H0 H1.
-      destruct (in_dec string_dec q (map (fun k => tmp_of (note_path k)) order)) as [I|I].
-      + apply in_map_iff in I as (k & <- & Hk). exists k. auto.
-      + destruct (atomic_repaired export chunks chunks_ok order n cleanup s0 q Hcl) as [E|(k & Hk & -> & _)].
-        * intros k Hk ->. apply I, in_map_iff. eauto.
-        * fold s in E. congruence.
-        * exists k. auto.
+    intros Hcl s.
+    pose proof (atomic_repaired export chunks chunks_ok order n cleanup s0 Hcl) as I. fold s in I.
+    repeat split.
+    - intros q Hq. destruct I as [A|(k & Hk & B)]; [apply A|]. apply B. intros ->.
+      pose proof (tmp_free s0 (note_path k)) as F. now apply lookup_none_notin in F.
+    - intros k Hk. destruct I as [A|(k' & Hk' & B)]; [apply A|]. apply B.
+      intros E. symmetry in E. now apply tmp_not_note in E.
+    - destruct I as [A|(k & Hk & B)]; [now left|]. right. exists k.
+      split; [exact Hk|]. split; [apply tmp_free | exact B].
   Qed.
 End Tree.
 
@@ -519,7 +701,7 @@ Theorem as_found_truncates :
     (forall k, In k order <-> In k (written_keys t)) /\
     names_ok t = true /\ irregular t = false /\
     lookup "a.md" (files_of t) = Some "old" /\
-    lookup "a.md" (run_ops (firstn n (normalize_ops chunks AsFound order)) (files_of t)) = Some "".
+    lookup "a.md" (run_ops (firstn n (normalize_ops chunks AsFound order (files_of t))) (files_of t)) = Some "".
 Proof.
   exists [File "a.md" "old"], ["a"], 1. cbn zeta. repeat split; try reflexivity.
   - intros [H|[]]. now left.
@@ -534,7 +716,7 @@ Theorem double_md_misplaced :
     let chunks := fun _ : string => ["new"] in
     (forall k, In k order <-> In k (written_keys t)) /\
     irregular t = true /\
-    let s := run_ops (normalize_ops chunks AsFound order) (files_of t) in
+    let s := run_ops (normalize_ops chunks AsFound order (files_of t)) (files_of t) in
     lookup "x.md" (files_of t) = None /\ lookup "x.md" s = Some "new" /\
     lookup "x.md.md" s = Some "old".
 Proof.
